@@ -360,7 +360,9 @@ def check(F, R, tier="quick", props=("C04", "C15", "C05")):
     md = mds[0]
     vals = scripted_values(md)
     dur = Var("std::time::Duration", fields={"secs": 3, "nanos": 0})
-    option_sets = [("none", None, None), ("gap", 0.01, None), ("limit", None, dur), ("gap+limit", 0.001, dur), ("gap-zero", 0.0, None), ("gap-negative", -0.5, None), ("gap-nan", float("nan"), None), ("gap-zero+limit", 0.0, dur)]
+    option_sets = [("none", None, None), ("gap", 0.01, None), ("limit", None, dur), ("gap+limit", 0.001, dur), ("gap-zero", 0.0, None), ("gap-negative", -0.5, None), ("gap-nan", float("nan"), None), ("gap-zero+limit", 0.0, dur),
+                   # every magnitude is the caller's: no floor, ceiling or rounding between the option and the solver
+                   ("gap-1e-6", 1e-6, None), ("gap-1e-9", 1e-9, dur), ("gap-smallest", 5e-324, None), ("gap-1e-4", 1e-4, None), ("gap-0.75", 0.75, None), ("gap-one", 1.0, None), ("gap-2.5", 2.5, dur), ("gap-infinite", float("inf"), None), ("gap-minus-zero", -0.0, None)]
     if "C15" in props or "C05" in props:
         for (oname, gap, limit), (sense_l, md_s) in [(o_, s_) for o_ in option_sets for s_ in (("", mds[0]), ("min:", mds[1]))]:
             for status in ("Optimal", "Feasible", "Interrupted"):
